@@ -8,6 +8,7 @@ import (
 	"math/bits"
 	"strings"
 	"sync"
+	"sync/atomic"
 )
 
 type Op uint8
@@ -80,16 +81,28 @@ type table struct {
 }
 
 // TermStore interns terms. One store per worker (no sharing across workers).
+const nStripes = 256
+
+type termStripe struct {
+	mu sync.Mutex
+	m  map[termKey]*Term
+	_  [40]byte
+}
+
 type TermStore struct {
-	mu     sync.Mutex
-	m      map[termKey]*Term
-	next   int32
-	tables []*table
-	tblKey map[string]int
+	mu      sync.Mutex // tables
+	stripes [nStripes]termStripe
+	next    int32
+	tables  []*table
+	tblKey  map[string]int
 }
 
 func NewTermStore() *TermStore {
-	return &TermStore{m: map[termKey]*Term{}, tblKey: map[string]int{}}
+	s := &TermStore{tblKey: map[string]int{}}
+	for i := range s.stripes {
+		s.stripes[i].m = map[termKey]*Term{}
+	}
+	return s
 }
 
 var TS = NewTermStore()
@@ -112,14 +125,18 @@ func (s *TermStore) mk(op Op, w uint8, c uint64, name string, args ...*Term) *Te
 	if len(args) > 2 {
 		k.d = args[2].id
 	}
-	s.mu.Lock()
-	defer s.mu.Unlock()
-	if t, ok := s.m[k]; ok {
+	h := uint32(k.op)*31 + uint32(k.w)*17 + uint32(k.c)*2654435761 + uint32(k.c>>32)*40503 + uint32(k.a)*97 + uint32(k.b)*1009 + uint32(k.d)*7919
+	for i := 0; i < len(name); i++ {
+		h = h*16777619 ^ uint32(name[i])
+	}
+	st := &s.stripes[h%nStripes]
+	st.mu.Lock()
+	defer st.mu.Unlock()
+	if t, ok := st.m[k]; ok {
 		return t
 	}
-	t := &Term{op: op, w: w, c: c, name: name, args: args, id: s.next}
-	s.next++
-	s.m[k] = t
+	t := &Term{op: op, w: w, c: c, name: name, args: args, id: atomic.AddInt32(&s.next, 1)}
+	st.m[k] = t
 	return t
 }
 
@@ -255,7 +272,7 @@ func evalOp(op Op, w uint8, c uint64, a []uint64, aw []uint8) uint64 {
 	case OpBNot:
 		return a[0] ^ 1
 	case OpTable:
-		tb := TS.tables[c]
+		tb := getTable(int(c))
 		if a[0] >= uint64(len(tb.vals)) {
 			return 0
 		}
@@ -815,8 +832,20 @@ func TableID(elemW, idxW uint8, vals []uint64) int {
 	return id
 }
 
+func getTable(id int) *table {
+	TS.mu.Lock()
+	defer TS.mu.Unlock()
+	return TS.tables[id]
+}
+
+func numTables() int {
+	TS.mu.Lock()
+	defer TS.mu.Unlock()
+	return len(TS.tables)
+}
+
 func TableSel(id int, idx *Term) *Term {
-	tb := TS.tables[id]
+	tb := getTable(id)
 	if idx.w != tb.iw {
 		panic("TableSel index width")
 	}
